@@ -12,6 +12,8 @@ per (property, key): number of evaluations, worst error, tolerance, and the firs
     stale      C14  Get_K_C_M_F served from the simulation's cache equals what a copy of the simulation assembles anew
     integrate  C19  Behavior.Integrate: arguments untouched, outputs finite where converged, p never decreases
     fearray    C12  FeArray @ / dot / ddot between two fields: the pointwise product at sampled (element, point) pairs
+    timestep   C05  every solve under a time scheme: stored rates follow the documented scheme; equation of motion on free dofs (linear kinds)
+    history    C15  stored iterations keep the digest they were saved with; the entry just saved holds the live primary fields
 """
 
 from __future__ import annotations
@@ -398,13 +400,192 @@ def install_fearray(sample=3):
     wrap("ddot", lambda x, y: np.tensordot(x, y, axes=2))
 
 
+# ------------------------------------------------------------------------------------------
+def install_timestep(limit_dofs=4000):
+    """Every solve under a parabolic / hyperbolic scheme: the rates stored after the step are those the documented scheme
+    derives from the previous state and the new solution (executable model verifmon.ref.time_schemes); for the linear
+    simulations the discrete equation of motion holds on the free dofs at the scheme's evaluation point."""
+    from EasyFEA.Simulations._simu import _Simu
+
+    from ..ref import time_schemes as ts
+
+    orig = _Simu._Solver_Solve_problemType
+
+    def params(simu):
+        algo = str(getattr(simu.algo, "value", simu.algo))
+        if algo == "elliptic":
+            return algo, None
+        if algo == "parabolic":
+            dt, alpha = simu._Simu__Solver_Get_Parabolic_Params()
+            return algo, {"dt": float(dt), "alpha": float(alpha), "beta": 0.25, "gamma": 0.5}
+        dt, beta, gamma, alpha = simu._Simu__Solver_Get_Hyperbolic_Params()
+        return algo, {"dt": float(dt), "alpha": float(alpha), "beta": float(beta), "gamma": float(gamma)}
+
+    @guarded("timestep")
+    def look(simu, pt, algo, p, before):
+        if algo not in ts.ALL:
+            return
+        un, vn, an = before
+        u1, v1, a1 = (np.asarray(x, float) for x in (simu._Get_u_n(pt), simu._Get_v_n(pt), simu._Get_a_n(pt)))
+        if u1.size > limit_dofs or un.shape != u1.shape:
+            return
+        x = a1 if algo == "euler_explicit" else u1
+        ref = ts.step(algo, p, un, vn, an, x)
+        pe = ts.effective_params(algo, p)
+        dt = p["dt"]
+        kind = type(simu).__name__
+        k = f"C05/suite/{kind}/{algo}"
+        sc_u = np.abs(u1).max() + np.abs(un).max() + dt * np.abs(vn).max() + dt**2 * np.abs(an).max() + 1e-300
+        if algo == "euler_explicit":
+            LOG.check("C05", "update-u", k + "/update-u", np.abs(u1 - ref["u1"]).max() / sc_u, 1e-12)
+            LOG.check("C05", "update-v", k + "/update-v", np.abs(v1 - ref["v1"]).max() / (np.abs(vn).max() + dt * np.abs(a1).max() + 1e-300), 1e-12)
+        elif algo == "parabolic":
+            LOG.check("C05", "update-v", k + "/update-v", np.abs(v1 - ref["v1"]).max() / (sc_u / (pe["alpha"] * dt)), 1e-10, dt=dt, alpha=pe["alpha"])
+        else:
+            beta = pe["beta"] if algo != "euler_implicit" else 1.0
+            sc_a = sc_u / (min(beta, 0.25) * dt**2)
+            sc_v = sc_u / dt + dt * sc_a
+            LOG.check("C05", "update-v", k + "/update-v", np.abs(v1 - ref["v1"]).max() / sc_v, 1e-10, dt=dt)
+            LOG.check("C05", "update-a", k + "/update-a", np.abs(a1 - ref["a1"]).max() / sc_a, 1e-10, dt=dt)
+        if simu.isNonLinear or len(simu.Bc_Lagrange) > 0:
+            return
+        K, C, M, F = simu.Get_K_C_M_F(pt)
+        n = un.size
+        K, C, M = K[:n, :n], C[:n, :n], M[:n, :n]
+        b = F.toarray().ravel()[:n] + np.asarray(simu.Bc_vector_Neumann(pt), float)[:n]
+        known = np.unique(np.asarray(simu.Bc_dofs_Dirichlet(pt), int))
+        used = np.unique(np.concatenate([g.connect.ravel() for g in simu.mesh.Get_list_groupElem(simu.mesh.dim)]))
+        dof_n = simu.Get_dof_n(pt)
+        ud = (used[:, None] * dof_n + np.arange(dof_n)).ravel()
+        free = np.setdiff1d(ud, known)
+        if not len(free):
+            return
+        ut, vt, at = ref["ut"], ref["vt"], ref["at"]
+        r = K @ ut + C @ vt - b
+        rows = np.asarray(abs(K) @ np.abs(ut) + abs(C) @ np.abs(vt)).ravel() + np.abs(b)
+        if at is not None:
+            r = r + M @ at
+            rows = rows + np.asarray(abs(M) @ np.abs(at)).ravel()
+        wK, wC, wM = ts.weights(algo, p)
+        rows = rows + np.asarray(abs(wK * K + wC * C + wM * M) @ np.abs(x)).ravel()
+        LOG.check("C05", "equation-of-motion", k + "/equation", float(np.max(np.abs(r[free]) / np.maximum(rows[free], 1e-300))), 1e-9, dt=dt, n_free=int(len(free)))
+
+    def solve(simu, problemType):
+        if _inside[0]:
+            return orig(simu, problemType)
+        try:
+            algo, p = params(simu)
+            before = tuple(np.array(x, dtype=float, copy=True) for x in (simu._Get_u_n(problemType), simu._Get_v_n(problemType), simu._Get_a_n(problemType))) if p else None
+        except Exception as e:  # noqa: BLE001
+            LOG.monitor_error("timestep-pre", e)
+            algo, p, before = "elliptic", None, None
+        out = orig(simu, problemType)
+        if p is not None:
+            LOG.call("time-steps")
+            look(simu, problemType, algo, p, before)
+        return out
+
+    _Simu._Solver_Solve_problemType = solve
+
+
+# ------------------------------------------------------------------------------------------
+def install_history(sample=2, limit=400_000):
+    """Stored iterations never change: a digest of every iteration is taken when Save_Iter returns; at every later Save_Iter /
+    Set_Iter on the same simulation a few earlier iterations are read back (Get_results) and must have the digest they were
+    stored with. Right after Save_Iter the stored primary fields equal the live state."""
+    import hashlib
+    import weakref
+
+    from EasyFEA.Simulations._simu import _Simu
+
+    reg: "weakref.WeakKeyDictionary" = weakref.WeakKeyDictionary()
+    rng = np.random.default_rng(1)
+    o_save, o_set = _Simu.Save_Iter, _Simu.Set_Iter
+
+    def digest(d):
+        h = hashlib.sha1()
+        size = 0
+
+        def feed(v):
+            nonlocal size
+            if isinstance(v, dict):
+                for k_ in sorted(v, key=str):
+                    h.update(str(k_).encode())
+                    feed(v[k_])
+            elif isinstance(v, np.ndarray):
+                size += v.size
+                h.update(str(v.shape).encode())
+                h.update(np.ascontiguousarray(v).tobytes())
+            elif isinstance(v, (list, tuple)):
+                for x_ in v:
+                    feed(x_)
+            else:
+                h.update(repr(v).encode())
+
+        feed(d)
+        return h.hexdigest(), size
+
+    @guarded("history")
+    def after_save(simu):
+        n = simu.Niter
+        lst = reg.setdefault(simu, {})
+        if lst and max(lst) >= n:
+            lst.clear()  # the history was reset
+        res = simu.Get_results(n - 1)
+        dg, size = digest(res)
+        if size <= limit:
+            lst[n - 1] = dg
+        kind = type(simu).__name__
+        # the primary fields of the new entry are the live ones
+        worst = 0.0
+        for name in ("displacement", "thermal", "u", "damage"):
+            if name in res and isinstance(res[name], np.ndarray) and hasattr(type(simu), name):
+                live = np.asarray(getattr(simu, name))
+                worst = max(worst, 0.0 if (live.shape == res[name].shape and np.array_equal(live, res[name])) else np.inf)
+        LOG.check("C15", "saved-equals-live", f"C15/suite/{kind}/Save_Iter/primary-fields", worst, 0.0)
+
+    @guarded("history")
+    def verify(simu, via):
+        lst = reg.get(simu)
+        if not lst:
+            return
+        kind = type(simu).__name__
+        keys = list(lst)
+        for i in rng.choice(keys, size=min(sample, len(keys)), replace=False):
+            i = int(i)
+            if i >= simu.Niter:
+                continue
+            dg, _ = digest(simu.Get_results(i))
+            LOG.check("C15", "stored-unchanged", f"C15/suite/{kind}/stored-iteration-unchanged@{via}", 0.0 if dg == lst[i] else np.inf, 0.0, iteration=i, Niter=int(simu.Niter))
+
+    def Save_Iter(simu, *a, **k):
+        if _inside[0]:
+            return o_save(simu, *a, **k)
+        verify(simu, "Save_Iter")
+        out = o_save(simu, *a, **k)
+        LOG.call("save-iter")
+        after_save(simu)
+        return out
+
+    def Set_Iter(simu, *a, **k):
+        if _inside[0]:
+            return o_set(simu, *a, **k)
+        out = o_set(simu, *a, **k)
+        LOG.call("set-iter")
+        verify(simu, "Set_Iter")
+        return out
+
+    _Simu.Save_Iter = Save_Iter
+    _Simu.Set_Iter = Set_Iter
+
+
 INSTALLERS = {"law": install_law, "assembly": install_assembly, "bc": install_bc, "stale": install_stale, "integrate": install_integrate,
-              "fearray": install_fearray}
+              "fearray": install_fearray, "timestep": install_timestep, "history": install_history}
 
 
 def install(names, out_path):
     # order matters: 'stale' counts assemblies through whatever wraps Assembly before it
-    for n in ["law", "assembly", "bc", "integrate", "fearray", "stale"]:
+    for n in ["law", "assembly", "bc", "timestep", "integrate", "fearray", "history", "stale"]:
         if n in names:
             try:
                 INSTALLERS[n]()
